@@ -29,7 +29,7 @@ TIM = {"day": F(1), "yr": F(36525, 100), "hour": F(1, 24)}
 
 
 def plan(ctx):
-    return [("twin", i) for i in range(50 if ctx.thorough else 18)] + [("conv", 0)]
+    return [("twin", i) for i in range(120 if ctx.thorough else 18)] + [("conv", 0)]
 
 
 def cv(value, old, new):
